@@ -162,7 +162,7 @@ def r94(repo, ctx):
                     if isinstance(st, ast.Assign) and isinstance(st.targets[0], ast.Subscript) and U.chain(st.targets[0].value) == (cs, 'dof') and 'state_variables' in U.names_in(st.value):
                         ok = True
     solve = [c for c in U.calls(f) if U.call_attr(c) == 'solve']
-    after = bool(solve) and branch is not None and all(c.lineno > branch_stmt.end_lineno for c in solve)
+    after = bool(solve) and branch is not None and all(U.seq(f)[id(c)] > U.seq(f)[id(branch_stmt)] and not U.inside(c, branch_stmt) for c in solve)
     ctx.check(ok and after, 'R9.4', LE, 'local_equilibrium', f, 'supplied composition sets get the current state variables (incl. temperature) before the solver runs',
               'composition sets supplied from a cache are solved without refreshing their state variables: the result depends on the temperature of the previous query',
               construct='local_equilibrium: refresh of supplied composition sets')
